@@ -36,8 +36,16 @@ def work(item) -> Dict[str, Any]:
 
 
 def _work(item) -> Dict[str, Any]:
-    prog, lay_name, twin = item
+    prog, lay_name, twin = item[:3]
     lay = LAY[lay_name]
+    for h in (item[3] if len(item) > 3 else ()):
+        # HISTORY: programs parsed, built and evaluated earlier in this process (results not examined here)
+        hp = parse_and_build(render(h, lay))
+        if 'Model' in hp:
+            try:
+                hp['Model'](range(-3, 4))._evaluate(3)
+            except Exception:  # noqa: BLE001
+                pass
     text = render(prog, lay)
     out: Dict[str, Any] = {'prog': show(prog), 'layout': lay_name, 'bad': [], 'paths': 0, 'stats': {}, 'status': 'ok'}
     if not all(renderer_selfcheck(eq.expr, lay) for eq in prog):
@@ -111,6 +119,10 @@ def main() -> int:
         items.append((p, 'wide', None))
     for p in ps['fixed']:
         items.append((p, 'tight', None))
+    from gram.enum import HISTORY_PAIRS
+    for hist, p in HISTORY_PAIRS:
+        for lay in ('plain', 'tight'):
+            items.append((p, lay, None, hist))
     results = run_items(work, items, soft_items=ps['sampled'])
     from gram import Bin, Eq, Num, Var
     twins = [((Eq(Var('Y'), Bin('+', Var('X', off=-1), Var('Z'))),), 'plain', 'lag_off'),
